@@ -104,3 +104,80 @@ Theorem C01_feature_keyline_roundtrip_partial : forall r pre depth f post,
     (Ok (Seq.fkey f, Seq.floc f), mkst post o' e' a' (fr :: k)).
 Proof. exact feature_keyline_roundtrip. Qed.
 Print Assumptions C01_feature_keyline_roundtrip_partial.
+
+(* THE FEATURE TABLE.  INSDCTableParser(INSDCFormatter.String(table)) = table:
+   for every non-empty table whose features have a key of feature-key
+   characters narrower than the location column, a printable location (C06)
+   and qualifiers that are written quoted (registered as quoted, or unknown to
+   the registry), with snake-case names, values without a double quote (K10)
+   or a backslash (K13) and without a line that starts like a continuation
+   prefix; Props in the normal form Props.Add produces (distinct names, at
+   least one value each).  The table may end the input or be followed by a
+   newline and any text that is neither a key line nor a qualifier line (e.g.
+   ORIGIN).  The result is the SAME list of features (keys, locations, Props),
+   and the registry has learned the unknown names as quoted.  Proved on the
+   faithful pars model through the key-line parser, pars.Quoted, the
+   continuation-prefix stripping, pars.Many with the registry threaded through
+   it, and the first-line special case of INSDCTableParser.
+   PARTIAL: literal (/codon_start=1) and toggle (/pseudo) qualifiers are
+   decided by the correspondence and the oracle. *)
+From GTS Require Import Seq QualRT PropsRT FeatRT TableRT.
+Theorem C01_feature_table_roundtrip_partial : forall r np depth, 0 <= np -> np < depth ->
+  forall f t last post reg W,
+  Forall (fok r np depth) (f :: t) -> Forall (fun g => pnormal (fprops g)) (f :: t) ->
+  names_ok reg (f :: t) -> eol_post last post -> stops np depth post ->
+  table_show r (kprefix np) depth (f :: t) = Ok W ->
+  forall o e a (fr : frame) k, exists o' e' a',
+    table_parser [] reg (mkst ((W ++ last) ++ post) o e a (fr :: k)) =
+    (Ok (f :: t, regs_feats reg (f :: t)), mkst post o' e' a' (fr :: k)).
+Proof. exact table_roundtrip. Qed.
+Print Assumptions C01_feature_table_roundtrip_partial.
+
+(* the hypotheses are met by a concrete table (two features, a reverse-strand
+   join, a value of two lines, a qualifier name unknown to the registry,
+   followed by ORIGIN), and on it the round trip is also computed *)
+From GTS Require Import Loc LocParse StripProofs.
+Definition ex_gene : list byte := [103;101;110;101].
+Definition ex_note : list byte := [110;111;116;101].
+Definition ex_xyz : list byte := [120;121;122].
+Definition ex_ff : list feature :=
+  [mkfeat ex_gene (Ranged 0 9 false false) [[ex_gene; [97;98;99]]];
+   mkfeat [67;68;83] (Complemented (Joined [Ranged 2 5 true false; Ranged 7 9 false false]))
+          [[ex_note; [116;119;111;10;108;105;110;101;115]; [98]]; [ex_xyz; [113]]]].
+Definition ex_post : list byte := [79;82;73;71;73;78;10].
+
+Lemma ex_coord n : 0 <= n <= 1000 -> coord n.
+Proof. unfold coord, int64_max. lia. Qed.
+
+Example table_hypotheses_met :
+  Forall (fok default_registry 5 21) ex_ff /\ Forall (fun g => pnormal (fprops g)) ex_ff /\
+  names_ok default_registry ex_ff /\ eol_post [10] ex_post /\ stops 5 21 ex_post.
+Proof.
+  split; [|split; [|split; [|split]]].
+  - unfold ex_ff, fok, qok, featkey, snake, quoted_type.
+    repeat (match goal with
+            | |- Forall _ (_ :: _) => apply Forall_cons
+            | |- Forall _ [] => apply Forall_nil
+            | |- _ /\ _ => split
+            | |- True => exact I
+            end; cbn [fkey floc fprops quals flat_map map app fst snd printable]).
+    all: try discriminate; try (vm_compute; reflexivity); try (apply ex_coord; lia); try lia.
+    all: try (apply no_occ_no10; repeat constructor; discriminate).
+    all: try (left; vm_compute; reflexivity); try (right; vm_compute; reflexivity).
+    all: try (repeat constructor; discriminate).
+    all: try (intros j; unfold occurs_at; do 10 (destruct j as [|j]; [reflexivity|]); destruct j; reflexivity).
+  - repeat constructor; cbn; try (intros [H|H]; [discriminate H|exact H]); try tauto; eauto.
+  - intros f q Hf Hq. unfold ex_ff in Hf. cbn in Hf.
+    destruct Hf as [<-|[<-|[]]]; cbn in Hq;
+      repeat (destruct Hq as [<-|Hq]; [first [left; vm_compute; reflexivity|right; vm_compute; reflexivity]|]); contradiction.
+  - left. reflexivity.
+  - split; vm_compute; reflexivity.
+Qed.
+
+Example C01_feature_table_example :
+  match table_show default_registry (kprefix 5) 21 ex_ff with
+  | Ok W => fst (table_parser [] default_registry (st_of (W ++ [10] ++ ex_post))) =
+            Ok (ex_ff, regs_feats default_registry ex_ff)
+  | _ => False
+  end.
+Proof. vm_compute. reflexivity. Qed.
